@@ -475,16 +475,22 @@ class cleanup_functools_wrapper(object):
         self.saved_attrs = {}
         if _verif.enabled:
             _verif.emit('WindowEnter', obj=id(self.func))
-        for attr in self.attrs:
-            try:
-                self.saved_attrs[attr] = getattr(self.func, attr)
-                if _verif.enabled:
-                    _verif.emit('Save', obj=id(self.func), attr=attr)
-                delattr(self.func, attr)
-                if _verif.enabled:
-                    _verif.emit('Del', obj=id(self.func), attr=attr)
-            except AttributeError:
-                pass
+        try:
+            for attr in self.attrs:
+                try:
+                    self.saved_attrs[attr] = getattr(self.func, attr)
+                    if _verif.enabled:
+                        _verif.emit('Save', obj=id(self.func), attr=attr)
+                    delattr(self.func, attr)
+                    if _verif.enabled:
+                        _verif.emit('Del', obj=id(self.func), attr=attr)
+                except AttributeError:
+                    pass
+        except BaseException:
+            # __exit__ is not called when __enter__ fails: put back what
+            # was already taken away
+            self.__exit__()
+            raise
 
     def __exit__(self, *exc):
         for attr, val in self.saved_attrs.items():
